@@ -216,3 +216,92 @@ pub fn format_input(input: Input, opts: &Opts, render_report: bool) -> FmtOut {
     res.text = String::from_utf8_lossy(&out).into_owned();
     res
 }
+
+/// One step of [`format_sequence`].
+#[derive(Debug, Clone, Default)]
+pub struct SeqOut {
+    pub text: String,
+    pub err: Option<String>,
+    pub errors: Vec<(String, usize, String)>,
+    /// session-wide summary flags after this step:
+    /// (operational, parsing, formatting, check, diff, unformatted)
+    pub flags_after: (bool, bool, bool, bool, bool, bool),
+    pub panicked: bool,
+}
+
+#[derive(Clone)]
+struct SharedBuf(std::rc::Rc<std::cell::RefCell<Vec<u8>>>);
+
+impl std::io::Write for SharedBuf {
+    fn write(&mut self, b: &[u8]) -> std::io::Result<usize> {
+        self.0.borrow_mut().extend_from_slice(b);
+        Ok(b.len())
+    }
+    fn flush(&mut self) -> std::io::Result<()> {
+        Ok(())
+    }
+}
+
+/// Formats several texts one after the other in ONE `Session` built from `base`; a step with
+/// `Some(local)` options runs under `Session::override_config` (as the binary does for a file with
+/// its own configuration file).
+pub fn format_sequence(steps: &[(String, Option<Opts>)], base: &Opts) -> Vec<SeqOut> {
+    let _ = take_panics();
+    let mut config = build_config(base);
+    let locals: Vec<Option<Config>> = steps
+        .iter()
+        .map(|(_, l)| {
+            l.as_ref().map(|l| {
+                let mut all = base.clone();
+                all.extend(l.iter().cloned());
+                let mut c = build_config(&all);
+                c.set().emit_mode(EmitMode::Stdout);
+                c.set().verbose(Verbosity::Quiet);
+                c
+            })
+        })
+        .collect();
+    config.set().emit_mode(EmitMode::Stdout);
+    config.set().verbose(Verbosity::Quiet);
+    let buf = SharedBuf(std::rc::Rc::new(std::cell::RefCell::new(Vec::new())));
+    let mut sink = buf.clone();
+    let mut res = vec![];
+    let r = panic::catch_unwind(AssertUnwindSafe(|| {
+        let mut out = vec![];
+        let mut session = Session::new(config, Some(&mut sink));
+        for ((text, _), local) in steps.iter().zip(locals.into_iter()) {
+            buf.0.borrow_mut().clear();
+            let input = Input::Text(text.clone());
+            let r = match local {
+                Some(cfg) => session.override_config(cfg, |s| s.format(input)),
+                None => session.format(input),
+            };
+            let mut so = SeqOut::default();
+            match r {
+                Ok(report) => {
+                    so.errors = rustfmt_nightly::verif_hooks::report_errors(&report).into_iter().map(|(f, l, k, ..)| (f, l, k)).collect();
+                }
+                Err(e) => so.err = Some(format!("{e:?}")),
+            }
+            so.text = String::from_utf8_lossy(&buf.0.borrow()).into_owned();
+            so.flags_after = (
+                session.has_operational_errors(),
+                session.has_parsing_errors(),
+                session.has_formatting_errors(),
+                session.has_check_errors(),
+                session.has_diff(),
+                session.has_unformatted_code_errors(),
+            );
+            out.push(so);
+        }
+        out
+    }));
+    match r {
+        Ok(v) => res = v,
+        Err(_) => {
+            res.push(SeqOut { panicked: true, ..Default::default() });
+        }
+    }
+    let _ = take_panics();
+    res
+}
